@@ -500,8 +500,75 @@ def _getters(ctx) -> None:
            f"{[nun(x.value) for x in r]}", dm.rel)
 
 
+def _prim_tabulate(ctx) -> None:
+    """PRIM.tabulated: the pure-Python calendar primitives of _helpers.py run by the checker's interpreter against the standard
+    library: is_leap / days_in_year for every year 1..2800 and 9999 (calendar.isleap), is_long_year for the same years
+    (ISO week 53 of 28 December), week_day for the first, 28th and last day of every month of 1..2800 sampled every 7th year
+    plus every day of 1999-2001 and 2024 (date.isoweekday), local_time for timestamps on both sides of every year boundary
+    1601..2399 (sampled), leap days, the epoch, negative times and utc offsets of both signs (datetime arithmetic)."""
+    import calendar
+    import datetime as _dt
+    from ..rules import minieval
+    m = pmod("_helpers")
+    consts = {}
+    for st in m.tree.body:
+        if isinstance(st, ast.ImportFrom) and st.module == "pendulum.constants":
+            for a_ in st.names:
+                try:
+                    consts[a_.asname or a_.name] = core.const("constants", a_.name)
+                except Exception:       # noqa: BLE001
+                    pass
+    funcs = {st.name: st for st in m.top() if isinstance(st, ast.FunctionDef)}
+    import math
+    glob = {**funcs, "$globals": {**consts, "math": minieval.Stub(floor=math.floor), "ValueError": ValueError}}
+    years = list(range(1, 2801)) + [9999]
+
+    def tab(name, cases, want, show):
+        if name not in funcs:
+            return
+        bad, n = [], 0
+        try:
+            for args in cases:
+                n += 1
+                try:
+                    got = minieval.call(funcs[name], list(args), {}, glob)
+                except minieval.Raised as e:
+                    bad.append(f"{show(args)}: raises {e.exc_name}")
+                    continue
+                w = want(*args)
+                if got != w or type(got) is not type(w) and not (isinstance(got, (bool, int)) and isinstance(w, (bool, int))):
+                    bad.append(f"{show(args)} = {got!r} (expected {w!r})")
+        except (core.Unsupported, KeyError, TypeError, AttributeError, IndexError, RecursionError, ValueError, ZeroDivisionError) as e:
+            ctx.unverified("PRIM.tabulated", f"py:{name}", f"outside the checker's interpreter: {type(e).__name__}: {e}", m.loc(funcs[name]))
+            return
+        ctx.ob("PRIM.tabulated", f"py:{name}", not bad, f"{n} inputs: " + (f"wrong: {bad[:3]}" if bad else "equal to the standard library on every input"), m.loc(funcs[name]))
+        if not bad:
+            ctx.established(("FORMULA", "LOCALTIME"), f"py:{name}", "PRIM.tabulated")
+    tab("is_leap", [(y,) for y in years], lambda y: calendar.isleap(y), lambda a: f"is_leap({a[0]})")
+    tab("days_in_year", [(y,) for y in years], lambda y: 366 if calendar.isleap(y) else 365, lambda a: f"days_in_year({a[0]})")
+    tab("is_long_year", [(y,) for y in years], lambda y: _dt.date(y, 12, 28).isocalendar()[1] == 53, lambda a: f"is_long_year({a[0]})")
+    wd_cases = [(y, mo, d) for y in list(range(1, 2801, 7)) + [9999] for mo in range(1, 13) for d in (1, 28, calendar.monthrange(y, mo)[1])]
+    for y in (1999, 2000, 2001, 2024):
+        wd_cases += [(y, mo, d) for mo in range(1, 13) for d in range(1, calendar.monthrange(y, mo)[1] + 1)]
+    tab("week_day", wd_cases, lambda y, mo, d: _dt.date(y, mo, d).isoweekday(), lambda a: f"week_day{a}")
+    EP = _dt.datetime(1970, 1, 1)
+
+    def lt_want(t, off, us):
+        w = EP + _dt.timedelta(seconds=math.floor(t) + off)
+        return (w.year, w.month, w.day, w.hour, w.minute, w.second, us)
+    lt_cases = []
+    for y in list(range(1601, 2400, 13)) + [1969, 1970, 1971, 1999, 2000, 2001, 2004, 2100, 2101, 1900, 1901, 2399]:
+        t0 = int((_dt.datetime(y, 1, 1) - EP).total_seconds())
+        for dlt in (-1, 0, 1, 86399, 86400, 59 * 86400, 60 * 86400, 365 * 86400 - 1, 365 * 86400):
+            lt_cases.append((t0 + dlt, 0, 5))
+        lt_cases += [(t0, 3600, 0), (t0, -3600, 999999), (t0 - 1, 19800, 1), (t0 + 86400 * 59 + 43200, -34200, 2)]
+    lt_cases += [(0, 0, 0), (-1, 0, 0), (1, 0, 0), (951782400, 0, 0), (951868799, 0, 7), (0.5, 0, 500000), (-0.5, 0, 500000), (4102444800, 0, 0), (-11644473600, 0, 0)]
+    tab("local_time", lt_cases, lt_want, lambda a: f"local_time{a}")
+
+
 def run(ctx) -> None:
     ctx.explanation = EXPLANATION
+    ctx.step(_prim_tabulate, ctx)
     ctx.step(_tables, ctx)
     ctx.step(_rust_consts, ctx)
     mir = None
